@@ -283,3 +283,8 @@ brk('C16', P, "                and self._length_tol[0] <= error \\", "          
 brk('C16', P, "        self._length_tol = (error, min_depth)\n", "", 'rebuilt table does not record its tolerances')
 brk('C16', P, "        lengths = [each.length(error=error, min_depth=min_depth) for each in\n                   self._segments]", "        lengths = [each.length() for each in\n                   self._segments]", 'segment lengths re-measured with default tolerances')
 ben('C16', P, "        self._length = sum(lengths)\n        self._length_tol = (error, min_depth)", "        self._length_tol = (error, min_depth)\n        self._length = sum(lengths)", 'swap two independent stores')
+
+# ---------------------------------------------------------------- C08 R08.4 admission (semantic)
+brk('C08', P, "            if 0 <= tx <= 1:\n                xtrema.append(self.point(tx).real)", "            if 0 < tx < 1:\n                xtrema.append(self.point(tx).real)", 'x-extrema admitted on the open interval only')
+brk('C08', P, "            if 0 <= ty <= 1:\n                ytrema.append(self.point(ty).imag)", "            if -1 <= ty <= 1:\n                ytrema.append(self.point(ty).imag)", 'y-extrema admitted for negative parameters')
+ben('C08', P, "            if 0 <= tx <= 1:\n                xtrema.append(self.point(tx).real)", "            if tx >= 0 and not tx > 1:\n                xtrema.append(self.point(tx).real)", 'expanded admission test')
